@@ -160,6 +160,33 @@ func c09Oracle(c c09Case) error {
 	if err := sameOutcome(fail(false, 0), fail(c.S.EOFWithData, chunk)); err != nil {
 		return fmt.Errorf("stream ending in a reader failure (with the last data: %v, chunk %d): %v", c.S.EOFWithData, chunk, err)
 	}
+	// A reader that fails after k bytes has delivered the same bytes as one that ends there:
+	// what was forwarded, found and handed back is the same, only the error may be the
+	// reader's instead of the end of the stream (or of what the last, unfinished line caused).
+	ks := []int{len(c.X)}
+	sum := 0
+	for i, n := range c.S.Chunks {
+		sum += n
+		if sum >= len(c.X) {
+			break
+		}
+		if n > 0 && (i == 0 || i == len(c.S.Chunks)/2) {
+			ks = append(ks, sum)
+		}
+	}
+	for _, k := range ks {
+		end := scanWith(c.X[:k], nil, opts)
+		var w bytes.Buffer
+		r := &cutReader{data: c.X, c: k, err: errInjected, withData: c.S.EOFWithData}
+		snap, suffix, err := stack.ScanSnapshot(r, &w, opts)
+		got := outcome{snap, w.Bytes(), err, append(append([]byte{}, suffix...), c.X[r.pos:k]...)}
+		if got.err == errInjected && end.err != nil {
+			got.err = end.err
+		}
+		if err := sameOutcome(end, got); err != nil {
+			return fmt.Errorf("reader failing after %d of %d bytes, against the stream ending there: %v", k, len(c.X), err)
+		}
+	}
 	return nil
 }
 
